@@ -250,7 +250,11 @@ impl World {
             self.hostile_step(ctx);
             return;
         }
-        self.peer_ts = self.peer_ts.wrapping_add(ctx.ch.draw("ts.step", 40) as u32);
+        self.peer_ts = match ctx.ch.weighted("ts.kind", &[12, 1, 1]) {
+            0 => self.peer_ts.wrapping_add(ctx.ch.draw("ts.step", 40) as u32),
+            1 => self.peer_ts.wrapping_add(*ctx.ch.pick("ts.step", &[0xFF_FFFFu32, 0x100_0000, 0xFF_FFFE])),
+            _ => ctx.ch.draw("ts.step", 1 << 32) as u32,
+        };
         let ts = self.peer_ts;
         let bulk = self.mode == FMode::C17;
         let has_pending = !self.model.pending.is_empty();
@@ -293,7 +297,7 @@ impl World {
                 } else {
                     // createStream result (or a result nobody asked for), with / without a stream id
                     let args = match ctx.ch.weighted("op.arg.sidarg", &[8, 1, 1]) {
-                        0 => vec![AV::Num(*ctx.ch.pick("op.arg.sid", &[1.0f64, 2.0, 5.0, 0.0]))],
+                        0 => vec![AV::Num(*ctx.ch.pick("op.arg.sid", &[1.0f64, 2.0, 5.0, 0.0, 16777216.0, 4294967295.0]))],
                         1 => vec![],
                         _ => vec![AV::s("one")],
                     };
